@@ -502,7 +502,15 @@ func (d *Driver) Apply(s Step) bool {
 		return true
 
 	case "enableLev": // governance: leveragelp.AddPool (also creates the perpetual pool and the accounted pool)
-		err := c.EnableLeverage(uint64(s.I("p")))
+		var err error
+		if c.Rec != nil { // inside a recorded schedule: an Admin observation like every other governance step
+			ev := newEvent("leveragelp.MsgAddPool", "gov")
+			ev.Args["pool"] = u(uint64(s.I("p")))
+			err = c.AdminEv(ev, &leveragelptypes.MsgAddPool{Authority: c.gov(),
+				Pool: leveragelptypes.AddPool{AmmPoolId: uint64(s.I("p")), LeverageMax: math.LegacyNewDec(10)}})
+		} else {
+			err = c.EnableLeverage(uint64(s.I("p")))
+		}
 		if err != nil {
 			fmt.Println("enableLev:", err)
 		}
